@@ -1,6 +1,6 @@
 (* `K` cases: single decisions / kernel calls with extreme arguments, evaluated by the
    extracted model side by side with the crate (no element data is materialised). *)
-From Matreex Require Export Model.Obs Model.Ops.
+From Matreex Require Export Model.Obs Model.Ops Model.Traits Model.Scalar.
 
 Definition obs_res {X} (r : res X) (k : X -> obs) : obs :=
   match r with Val x => k x | Panic w => OPanic w | UB w => OUB w end.
@@ -41,5 +41,8 @@ Definition kcase (c : cfg) (name : Z) (a : list Z) : obs :=
     obs_res (Index_from_flattened i (ord_of o) (mkAxisShape mj mn)) (fun ix => OList [OZ (ix_row ix); OZ (ix_col ix)])
   | 9, [r; cl; o; mj; mn] =>                         (* Index::to_flattened *)
     obs_res (Index_to_flattened c (mkIndex r cl) (ord_of o) (mkAxisShape mj mn)) OZ
+  | 10, [] => OStr autotraits_text                   (* Send / Sync status of the mutable vector iterators *)
+  | 11, [ty; opk] => OStr (scalar_forms_text opk)     (* the 18 scalar operator forms of one primitive type *)
+  | 12, [ty] => OStr scalar_neg_text                 (* -matrix, -&matrix *)
   | _, _ => OInvalid
   end.
